@@ -35,6 +35,19 @@ def is_task_invoke(t):
     return "<(&mut A, &mut context::Context<A>)>" in tys and "dyn core::ops::function::Fn" in tys
 
 
+def task_invokes(fx, b):
+    """(bb, call, passes the loop's (&mut actor, &mut ctx)) for every invocation of a dequeued task in body b: the boxed
+    FnOnce called directly, or through a crate-local forwarding method (`Task::run(self, actor, ctx)`)"""
+    out = []
+    A = Alphabet(calls=[("task", is_task_invoke)])
+    for bi, t in b.normal_calls():
+        if is_task_invoke(t):
+            out.append((bi, t, t["argtys"][1:] == ["(&mut A, &mut context::Context<A>)"]))
+        elif t.get("callee_local") and t.get("callee") and A.wrapper_label(fx, t.get("resolved") or t["callee"]) == "task":
+            out.append((bi, t, t["argtys"][1:] == ["&mut A", "&mut context::Context<A>"]))
+    return out
+
+
 def local_wrapper(t):
     """crate-local free async fn taking a future (the timeout wrapper) — identified by shape, not by name"""
     return bool(t.get("callee_local")) and t.get("callee") and "impl{" in (t.get("destty") or "") and any("dyn core::future::future::Future" in a for a in t.get("argtys", []))
@@ -74,8 +87,28 @@ def _lifecycle_alphabet():
     )
 
 
+def loop_family(fx, f, depth=2):
+    """the code of a loop: its coroutine, the closures nested in it, and the crate-local helper functions it calls or awaits
+    (with their nested closures) — `next_incoming(&mut mailbox, &mut stream).await` is part of the loop"""
+    out = [f] + fx.descendants(f["def"])
+    if depth <= 0:
+        return out
+    for g in list(out):
+        for _bi, t in Body(g).normal_calls():
+            h = fx.fn(t.get("resolved") or t.get("callee") or "")
+            if h is None or h["kind"] not in ("fn", "assoc_fn") or h.get("impl_trait"):
+                continue
+            if h.get("is_async"):
+                for c in fx.children_of(h["def"]):
+                    if c["kind"] == "coroutine" and c not in out:
+                        out.extend(x for x in loop_family(fx, c, depth - 1) if x not in out)
+            elif h not in out:
+                out.extend(x for x in loop_family(fx, h, depth - 1) if x not in out)
+    return out
+
+
 def find_loops(fx):
-    """loop coroutines: call Actor::started and (themselves or in nested closures) dequeue from the mailbox"""
+    """loop coroutines: call Actor::started and (themselves, in nested closures or in local helpers) dequeue from the mailbox"""
     out = []
     for f in fx.d["fns"]:
         if f["kind"] != "coroutine":
@@ -84,7 +117,7 @@ def find_loops(fx):
         calls = [t for _, t in b.normal_calls()]
         if not any(trait_method(T_ACTOR, "started")(t) for t in calls):
             continue
-        bodies = [f] + fx.descendants(f["def"])
+        bodies = loop_family(fx, f)
         has_next = False
         for g in bodies:
             gb = Body(g)
@@ -94,6 +127,21 @@ def find_loops(fx):
             continue
         is_stream = any(trait_method(T_SH, "handle")(t) for t in calls)
         out.append((f, "stream" if is_stream else "plain"))
+    return out
+
+
+def pair_helpers(fx):
+    """crate-local synchronous functions that return the (loop future, address) pair of a create_loop* call unchanged
+    (a builder's private `into_event_loop`): {def: maker def}"""
+    makers = {f["parent"] for f, _k in find_loops(fx)}
+    out = {}
+    for f in fx.d["fns"]:
+        if f["kind"] not in ("fn", "assoc_fn") or f.get("is_async") or f["def"] in makers:
+            continue
+        b = Body(f)
+        os_ = b.origins([0])
+        if os_ and all(o.kind == "call" and not o.proj and (b.call_at(o).get("resolved") or b.call_at(o).get("callee")) in makers for o in os_):
+            out[f["def"]] = sorted({(b.call_at(o).get("resolved") or b.call_at(o).get("callee")) for o in os_})[0]
     return out
 
 
